@@ -94,14 +94,20 @@ class _Sub(ast.NodeTransformer):
 
 def _expand_one(g, deco, defs, in_class, level=0):
   """New (outer, wrapped) FunctionDefs for g decorated by `deco` (the last entry of its decorator list), or None."""
-  if isinstance(deco, ast.Name) and deco.id in defs:
-    sh = _decorate_shape(defs[deco.id])
+  def lookup(e):
+    if isinstance(e, ast.Name):
+      return defs.get(e.id)
+    if isinstance(e, ast.Attribute) and isinstance(e.value, ast.Name):
+      return defs.get('%s.%s' % (e.value.id, e.attr))       # helpers.decorator, through an imported module of the package
+    return None
+  if not isinstance(deco, ast.Call) and lookup(deco) is not None:
+    sh = _decorate_shape(lookup(deco))
     if sh is None:
       return None
     fn, w = sh
     binding = {}
-  elif isinstance(deco, ast.Call) and isinstance(deco.func, ast.Name) and deco.func.id in defs:
-    sh = _factory_shape(defs[deco.func.id])
+  elif isinstance(deco, ast.Call) and lookup(deco.func) is not None:
+    sh = _factory_shape(lookup(deco.func))
     if sh is None:
       return None
     params, defaults, fn, w = sh
@@ -207,9 +213,12 @@ def _expand_one(g, deco, defs, in_class, level=0):
   return outer, wrapped
 
 
-def expand_module(tree):
-  """Rewrite decorated functions of `tree` in place; returns the list of 'name <- decorator' strings expanded."""
-  defs = {s.name: s for s in tree.body if isinstance(s, ast.FunctionDef)}
+def expand_module(tree, imported=None):
+  """Rewrite decorated functions of `tree` in place; returns the list of 'name <- decorator' strings expanded.
+  `imported`: local name (or 'module.name') -> FunctionDef of a decorator defined in another module of the package
+  (the wrapper must then read nothing of its own module besides builtins: checked by the caller)."""
+  defs = dict(imported or {})
+  defs.update({s.name: s for s in tree.body if isinstance(s, ast.FunctionDef)})
   done = []
 
   def in_block(stmts, in_class):
@@ -380,3 +389,142 @@ def merge_branch_defs(tree):
         ch._parent = n
     tree._parent = None
   return done
+
+
+_LOG_METHODS = ('debug', 'info', 'warning', 'warn', 'error', 'exception', 'critical', 'log')
+_PURE_BUILTINS = ('len', 'str', 'repr', 'sorted', 'list', 'tuple', 'set', 'type', 'format', 'int', 'float', 'round', 'id', 'min', 'max', 'sum', 'bool', 'dict', 'abs')
+
+
+def drop_logging(tree):
+  """Statements that only emit a log record are removed: `LOG.debug('..', a, b)`, `logging.info(..)`, where LOG is a
+  module-level name bound to `logging.getLogger(..)`, and `if LOG.isEnabledFor(..):` blocks that contain nothing else.
+  Log records are not behaviour the properties speak about; the arguments must be free of calls other than pure
+  builtins and attribute / method reads of the form the surrounding code already performs (`x.shape`, `len(x)`), so that
+  dropping the statement drops no other effect.  Returns the number of statements removed."""
+  loggers = set()
+  logging_names = set()
+  for st in tree.body:
+    if isinstance(st, ast.Import):
+      for a in st.names:
+        if a.name == 'logging':
+          logging_names.add(a.asname or 'logging')
+    if isinstance(st, ast.ImportFrom) and st.module == 'absl':
+      for a in st.names:
+        if a.name == 'logging':
+          logging_names.add(a.asname or 'logging')
+    if isinstance(st, ast.Assign) and len(st.targets) == 1 and isinstance(st.targets[0], ast.Name) and isinstance(st.value, ast.Call) \
+        and _txt(st.value.func).split('.')[-1] == 'getLogger' and _txt(st.value.func).split('.')[0] in (logging_names or {'logging'}):
+      loggers.add(st.targets[0].id)
+  if not loggers and not logging_names:
+    return 0
+  n = [0]
+
+  pure_local = {}
+  for st in tree.body:
+    if isinstance(st, ast.FunctionDef) and not st.decorator_list:
+      body = _strip_doc(st.body)
+      if len(body) == 1 and isinstance(body[0], ast.Return) and body[0].value is not None:
+        pure_local[st.name] = body[0].value
+
+  def harmless(e, depth=2):
+    for x in ast.walk(e):
+      if isinstance(x, ast.Call):
+        f = x.func
+        if isinstance(f, ast.Name) and (f.id in _PURE_BUILTINS or f.id in ('getattr', 'isinstance', 'hasattr')):
+          continue
+        if isinstance(f, ast.Name) and f.id in pure_local and depth > 0 and harmless(pure_local[f.id], depth - 1):
+          continue          # a one-line module helper that only reads (formatting values for a message)
+        if isinstance(f, ast.Attribute) and f.attr in ('join', 'format', 'keys', 'values', 'items', 'tolist', 'isEnabledFor', 'getEffectiveLevel'):
+          continue
+        return False
+      if isinstance(x, (ast.NamedExpr, ast.Yield, ast.YieldFrom, ast.Await, ast.Lambda)):
+        return False
+    return True
+
+  def is_log_call(c):
+    if not (isinstance(c, ast.Call) and isinstance(c.func, ast.Attribute) and c.func.attr in _LOG_METHODS and isinstance(c.func.value, ast.Name)):
+      return False
+    if c.func.value.id not in loggers and c.func.value.id not in logging_names:
+      return False
+    return all(harmless(a) for a in list(c.args) + [k.value for k in c.keywords])
+
+  def is_enabled_test(t):
+    if isinstance(t, ast.UnaryOp) and isinstance(t.op, ast.Not):
+      return False
+    return isinstance(t, ast.Call) and isinstance(t.func, ast.Attribute) and t.func.attr == 'isEnabledFor' and isinstance(t.func.value, ast.Name) \
+        and (t.func.value.id in loggers or t.func.value.id in logging_names)
+
+  def block(stmts, is_body_of_def=False):
+    out = []
+    for st in stmts:
+      for fld in ('body', 'orelse', 'finalbody'):
+        if hasattr(st, fld) and isinstance(getattr(st, fld), list) and not isinstance(st, ast.ClassDef) or (isinstance(st, ast.ClassDef) and fld == 'body'):
+          new = block(getattr(st, fld))
+          if not new and fld == 'body':
+            new = [ast.copy_location(ast.Pass(), st)]
+          setattr(st, fld, new)
+      if isinstance(st, ast.Try):
+        for hd in st.handlers:
+          hd.body = block(hd.body) or [ast.copy_location(ast.Pass(), hd)]
+        if not st.handlers and not st.finalbody:
+          # try: BODY finally: <only log statements>  ->  BODY
+          out.extend(list(st.body) + list(st.orelse))
+          n[0] += 1
+          continue
+      if isinstance(st, ast.Expr) and is_log_call(st.value):
+        n[0] += 1
+        continue
+      if isinstance(st, ast.If) and is_enabled_test(st.test) and not st.orelse and all(isinstance(b, ast.Pass) for b in st.body):
+        n[0] += 1
+        continue
+      out.append(st)
+    return out
+  tree.body = block(tree.body)
+  if n[0]:
+    ast.fix_missing_locations(tree)
+    for p in ast.walk(tree):
+      for ch in ast.iter_child_nodes(p):
+        ch._parent = p
+    tree._parent = None
+  return n[0]
+
+
+def strip_local_annotations(tree):
+  """Inside function bodies:  `x: T = v` -> `x = v`,  `x: T` (no value) is removed.  Variable annotations of locals are
+  not evaluated at run time (PEP 526) and change nothing; class-level annotations (dataclass fields) are left alone."""
+  n = [0]
+
+  def block(stmts, in_func):
+    out = []
+    for st in stmts:
+      if isinstance(st, (ast.FunctionDef, ast.AsyncFunctionDef)):
+        st.body = block(st.body, True) or [ast.copy_location(ast.Pass(), st)]
+        out.append(st)
+        continue
+      if isinstance(st, ast.ClassDef):
+        st.body = block(st.body, False) or [ast.copy_location(ast.Pass(), st)]
+        out.append(st)
+        continue
+      for fld in ('body', 'orelse', 'finalbody'):
+        if hasattr(st, fld) and isinstance(getattr(st, fld), list):
+          new = block(getattr(st, fld), in_func)
+          setattr(st, fld, new or ([ast.copy_location(ast.Pass(), st)] if fld == 'body' else []))
+      if isinstance(st, ast.Try):
+        for hd in st.handlers:
+          hd.body = block(hd.body, in_func) or [ast.copy_location(ast.Pass(), hd)]
+      if in_func and isinstance(st, ast.AnnAssign) and isinstance(st.target, (ast.Name, ast.Attribute, ast.Subscript)):
+        n[0] += 1
+        if st.value is None:
+          continue
+        out.append(ast.copy_location(ast.Assign(targets=[st.target], value=st.value, lineno=st.lineno), st))
+        continue
+      out.append(st)
+    return out
+  tree.body = block(tree.body, False)
+  if n[0]:
+    ast.fix_missing_locations(tree)
+    for p in ast.walk(tree):
+      for ch in ast.iter_child_nodes(p):
+        ch._parent = p
+    tree._parent = None
+  return n[0]
